@@ -76,7 +76,8 @@ type cfRec struct {
 // coordinates of the case's vertices: exactly representable in float32, pairwise distinct
 func cfCoord(v, a int) float64 {
 	// all in the plane z = x/2 + y, so that the polygons of CodecFaults!Poly are planar and convex
-	table := [][3]float64{{0, 0, 0}, {4, 0, 2}, {4, 2, 4}, {2, 4, 5}, {0, 2, 2}, {7, 7, 7}}
+	// (vertex 7 lies inside the pentagon 1..5: polygons through it are concave)
+	table := [][3]float64{{0, 0, 0}, {4, 0, 2}, {4, 2, 4}, {2, 4, 5}, {0, 2, 2}, {7, 7, 7}, {1, 1, 1.5}}
 	if v < 1 || v > len(table) || a < 1 || a > 3 {
 		return 0
 	}
@@ -219,7 +220,11 @@ func cfMeshMatches(c *cfCase, tris []*model3d.Triangle, single bool) bool {
 					return false
 				}
 			}
-			gotArea = gotArea.Add(t[1].Sub(t[0]).Cross(t[2].Sub(t[0])))
+			ta := t[1].Sub(t[0]).Cross(t[2].Sub(t[0]))
+			if ta.Dot(wantArea) < -1e-9 {
+				return false // a triangle turned against the polygon: it lies outside a concave face
+			}
+			gotArea = gotArea.Add(ta)
 			k++
 		}
 		if gotArea.Dist(wantArea) > 1e-9 {
